@@ -313,6 +313,15 @@ func (a *Analysis) CheckC05(rep *Report) {
 			}
 		}
 	}
+	// K4: the numeric side is delegated to C14 – a frame's checksum is only as good as the service it calls
+	scratch := NewReport("C14", "other", "quick", 0)
+	a.CheckC14(scratch)
+	for _, v := range scratch.Violations {
+		rep.Ob("K4-service-verified-by-C14", v.Key, false, v.Pos, "the checksum service the frames rely on does not pass C14: "+v.Msg)
+	}
+	if len(scratch.Violations) == 0 {
+		rep.Ob("K4-service-verified-by-C14", "all-services", true, "", "")
+	}
 	rep.Floor("checksummed_frames", n, 3)
 }
 
@@ -496,6 +505,9 @@ func (a *Analysis) CheckC06(rep *Report) {
 					}
 					if idx, ok := recvFieldAddr(e.Dst); ok && depth == 0 {
 						stores[idx] = e
+					} else if root := addrRoot(e.Dst); root != nil && root.Op == "param" && root.ID == 0 {
+						// writes into memory reachable from the message (list elements, nested parts) change what a second encode sees
+						rep.Ob("A3-message-not-modified", key+":"+stableKey(e.Dst.Pretty()), false, epos, "Encode writes into the message it encodes: "+e.Dst.Pretty()+" <- "+e.Src.Pretty())
 					}
 				case EvMapWrite:
 					if r := addrRoot(stripCT(e.Recv)); r != nil {
